@@ -341,8 +341,9 @@ def check(case, ctx):
                     continue
                 m, o = model[i], pool[i]
                 if op == "refresh":
-                    sess.refresh(o)  # expires + reloads this object: its own pending change is discarded, nothing is flushed
+                    sess.refresh(o)  # expires this object first (its own pending change is discarded), then the reload autoflushes the others
                     m.dirty = False
+                    flush_model()
                     m.expired = False
                     m.x = rows[m.key[0]]
                 elif op == "expire":
